@@ -210,7 +210,9 @@ Proof.
   - apply Forall2_app; auto. constructor; auto. apply (rel_calc [] true false). discriminate.
   - apply Forall2_app; auto. constructor; auto. apply rel_default.
   - apply Forall2_set_at; auto. apply (rel_fill _ _ v w). apply rel_nth; auto.
-  - apply Forall2_set_at; auto. apply (rel_add _ _ _ (VData data false)). apply rel_nth; auto. apply rel_calc. discriminate.
+  - destruct data as [|d0 data].
+    + apply Forall2_set_at; auto. apply rel_nth; auto.
+    + apply Forall2_set_at; auto. apply (rel_add _ _ _ (VData (d0 :: data) false)). apply rel_nth; auto. apply rel_calc. discriminate.
   - apply Forall2_app; auto. constructor; auto. apply rel_add; apply rel_nth; auto.
   - apply Forall2_set_at; auto. apply rel_add; apply rel_nth; auto.
   - apply Forall2_app; auto. constructor; auto. apply rel_nth; auto.
